@@ -15,6 +15,8 @@ import (
 	"github.com/modernizing/coca/pkg/application/concept"
 	"github.com/modernizing/coca/pkg/application/count"
 	"github.com/modernizing/coca/pkg/application/evaluate"
+	"github.com/modernizing/coca/pkg/application/evaluate/evaluator"
+	"strconv"
 	"github.com/modernizing/coca/pkg/infrastructure/string_helper"
 	"github.com/modernizing/coca/pkg/application/tbs"
 	"github.com/modernizing/coca/pkg/domain/api_domain"
@@ -174,6 +176,28 @@ func init() {
 				list = append(list, toSx(m))
 			}
 		}
+		// every other tree: the list itself through `coca bs -p DIR [-x KINDS]` (coca_reporter/bs.json without -s)
+		if cliEnabled() && len(in.Nth(0).Items())%2 == 1 {
+			sess := newCliSess()
+			defer sess.close()
+			args := []string{"bs", "-p", rootArg(dir, in.Nth(0))}
+			if len(ignore) > 0 {
+				args = append(args, "-x", strings.Join(ignore, ","))
+			}
+			var got []bs_domain.BadSmellModel
+			if o, ok := sess.run(args...); !ok {
+				list = []Sx{L(A("!CLI-ERROR"), A(panicClass(o)), A(""), A(""), N(0))}
+			} else if text, ok := sess.read("bs.json"); !ok || json.Unmarshal([]byte(text), &got) != nil {
+				list = []Sx{L(A("!CLI-NO-OUTPUT"), A("bs.json"), A(""), A(""), N(0))}
+			} else {
+				list = []Sx{}
+				for _, m := range got {
+					if keep(m.Bs) {
+						list = append(list, toSx(m))
+					}
+				}
+			}
+		}
 		// the CLI path for -s type (isSmellHaveSize is private to cmd)
 		groups := L(A("!NOCLI"))
 		if bin := os.Getenv("COCA_BIN"); bin != "" {
@@ -232,11 +256,43 @@ func init() {
 		for _, r := range tbs.NewTbsApp().AnalysisPath(classNodes, identMap) {
 			out = append(out, L(A(r.Type), A(strings.TrimPrefix(strings.TrimPrefix(r.FileName, dir), "/")), N(r.Line)))
 		}
+		// every other tree is observed through `coca tbs -p DIR`: coca_reporter/tbs.json
+		if cliEnabled() && len(in.Items())%2 == 1 {
+			sess := newCliSess()
+			defer sess.close()
+			if o, ok := sess.run("tbs", "-p", rootArg(dir, in)); !ok {
+				return L(L(A("!CLI-ERROR"), A(panicClass(o)), N(0)))
+			}
+			var rows []tbs.TestBadSmell
+			if text, ok := sess.read("tbs.json"); !ok || json.Unmarshal([]byte(text), &rows) != nil {
+				return L(L(A("!CLI-NO-OUTPUT"), A("tbs.json"), N(0)))
+			}
+			out = []Sx{}
+			for _, r := range rows {
+				out = append(out, L(A(r.Type), A(strings.TrimPrefix(strings.TrimPrefix(r.FileName, dir), "/")), N(r.Line)))
+			}
+		}
 		return L(out...)
 	})
 }
 
 // rows in the order `coca count` / `coca concept` print them
+// cliTable runs a command and returns the data rows of the (first) table it prints
+func cliTable(sess *cliSess, args ...string) ([][]string, bool) {
+	out, ok := sess.run(args...)
+	if !ok {
+		return nil, false
+	}
+	tables := tableRows(out)
+	if len(tables) == 0 {
+		return [][]string{}, true
+	}
+	if len(tables[0]) == 0 {
+		return [][]string{}, true
+	}
+	return tables[0][1:], true
+}
+
 func sxCounts(m map[string]int) Sx {
 	out := []Sx{}
 	for _, p := range string_helper.SortWord(m) {
@@ -249,7 +305,25 @@ func init() {
 	// ("count" model) -> reference counts ; ("java" ((relpath text) ...)) -> (counts summary concept)
 	register("C18", func(in Sx) Sx {
 		if in.Nth(0).Str() == "count" {
-			return sxCounts(count.BuildCallMap(modelOf(in.Nth(1))))
+			m := modelOf(in.Nth(1))
+			// every other model through `coca count -d deps.json`: the rows of the table it prints
+			if cliEnabled() && len(in.Nth(1).Items())%2 == 1 {
+				sess := newCliSess()
+				defer sess.close()
+				sess.writeJSON("deps.json", m)
+				if rows, ok := cliTable(sess, "count", "-d", "coca_reporter/deps.json"); ok {
+					out := []Sx{}
+					for _, r := range rows {
+						if len(r) == 2 {
+							n, _ := strconv.Atoi(r[0])
+							out = append(out, L(A(r[1]), N(n)))
+						}
+					}
+					return L(out...)
+				}
+				return L(L(A("!CLI-ERROR count"), N(0)))
+			}
+			return sxCounts(count.BuildCallMap(m))
 		}
 		dir := writeTree(in.Nth(1))
 		defer os.RemoveAll(dir)
@@ -264,9 +338,52 @@ func init() {
 		for _, p := range concept.NewConceptAnalyser().Analysis(&deps) {
 			words = append(words, L(A(p.Key), N(p.Value)))
 		}
-		return L(sxCounts(count.BuildCallMap(deps)),
-			L(N(res.Summary.ClassCount), N(res.Summary.MethodCount), N(res.Summary.StaticMethodCount), N(res.Summary.UtilsCount), Strs(nullable)),
-			L(words...))
+		counts := sxCounts(count.BuildCallMap(deps))
+		summary := L(N(res.Summary.ClassCount), N(res.Summary.MethodCount), N(res.Summary.StaticMethodCount), N(res.Summary.UtilsCount), Strs(nullable))
+		// every other project through the commands, on the report files a `coca analysis` leaves behind (written here from
+		// the same two passes): `coca count`, `coca concept` (their tables) and `coca evaluate` (evaluate.json)
+		if cliEnabled() && len(in.Nth(1).Items())%2 == 1 {
+			sess := newCliSess()
+			defer sess.close()
+			sess.writeJSON("deps.json", deps)
+			sess.writeJSON("identify.json", idents)
+			if rows, ok := cliTable(sess, "count", "-d", "coca_reporter/deps.json"); ok {
+				cs := []Sx{}
+				for _, r := range rows {
+					if len(r) == 2 {
+						n, _ := strconv.Atoi(r[0])
+						cs = append(cs, L(A(r[1]), N(n)))
+					}
+				}
+				counts = L(cs...)
+			} else {
+				counts = L(L(A("!CLI-ERROR count"), N(0)))
+			}
+			if rows, ok := cliTable(sess, "concept", "-d", "coca_reporter/deps.json"); ok {
+				words = []Sx{}
+				for _, r := range rows {
+					if len(r) == 2 {
+						n, _ := strconv.Atoi(r[1])
+						words = append(words, L(A(r[0]), N(n)))
+					}
+				}
+			} else {
+				words = []Sx{L(A("!CLI-ERROR concept"), N(0))}
+			}
+			if o, ok := sess.run("evaluate", "-d", "coca_reporter/deps.json"); !ok {
+				summary = L(N(0), N(0), N(0), N(0), Strs([]string{"!CLI-ERROR evaluate " + panicClass(o)}))
+			} else {
+				var ev evaluator.EvaluateModel
+				if text, ok := sess.read("evaluate.json"); !ok || json.Unmarshal([]byte(text), &ev) != nil {
+					summary = L(N(0), N(0), N(0), N(0), Strs([]string{"!CLI-NO-OUTPUT evaluate.json"}))
+				} else {
+					nl := append([]string{}, ev.Nullable.Items...)
+					sort.Strings(nl)
+					summary = L(N(ev.Summary.ClassCount), N(ev.Summary.MethodCount), N(ev.Summary.StaticMethodCount), N(ev.Summary.UtilsCount), Strs(nl))
+				}
+			}
+		}
+		return L(counts, summary, L(words...))
 	})
 }
 
